@@ -10,7 +10,9 @@ ASSUMPTIONS = [
 BODIES = ["'aa'", "at least 1 'a'", "'a' maybe 'a'", "'ab' or 'a'", "any any", "between 1 and 2 'a' 'b'",
           "at least 1 ('a' or 'b') fewest 'a'", "'a' = x maybe x", "not 'b' maybe 'a'", "letter word end",
           # bodies that can match the empty string: an empty match is never a match, under any amount clause
-          "maybe 'a'", "at least 0 'a'", "at most 2 'b'", "maybe 'a' maybe 'b'", "at least 0 ('a' or 'b') fewest"]
+          "maybe 'a'", "at least 0 'a'", "at most 2 'b'", "maybe 'a' maybe 'b'", "at least 0 ('a' or 'b') fewest",
+          # a body that is one single instruction (the shapes a shortcut would single out)
+          "caseless 'ab'", "caseless 'A'", "'a'", "any", "not 'a'", "letter"]
 
 
 def clauses(K):
@@ -46,7 +48,7 @@ def run(ctx):
     rng = ctx.rng
     quick = ctx.quick()
     texts = [t for t in all_texts("ab", 4 if quick else 6)]
-    texts += ["aaaaaaa", "abaabaaab", "aa\naa\naaa", "a a aa aaa"]
+    texts += ["aaaaaaa", "abaabaaab", "aa\naa\naaa", "a a aa aaa", "AB ab Ab ab", "aAaA", "a\nA\na"]
     bodies = list(BODIES)
     g = genprog.ProgGen(rng, allow_global=False, allow_named=False)
     for _ in range(4 if quick else 30):
